@@ -2,11 +2,12 @@
 # usage: tools/try_patch.sh <patch.diff> <ID> [ID...]   -- apply a seeded change to /repo, run quick checks, undo
 patch="$(realpath "$1")"; shift
 cd /verif || exit 2
+if [ -n "$(git -C /repo status --porcelain)" ]; then echo "REFUSING: /repo has uncommitted changes"; exit 4; fi
 if ! git -C /repo apply --check "$patch" 2>/dev/null; then echo "PATCH DOES NOT APPLY: $patch"; exit 3; fi
 git -C /repo apply "$patch"
 for id in "$@"; do
   ./check "$id" --tier "${TIER:-quick}" 2>&1 | grep -E "VIOLATION|tier=|HARNESS|^  " | cut -c1-300
 done
-git -C /repo checkout -- . 
+git -C /repo checkout -- .
 rm -f replays/*/new-*.json
 git -C /repo status --short | head -3
